@@ -438,6 +438,24 @@ func (g *OpGen) Next(m *Model) Op {
 		if m != nil && cfg.withExpiry() && r.Intn(4) == 0 {
 			op.D2 = g.genAdvance(m) // the loop body moves the clock after the first element
 		}
+		if m != nil && !cfg.bounded() && !cfg.withRefresh() && (kind == "all" || kind == "keys" || kind == "values") && r.Intn(4) == 0 {
+			// the loop body rewrites (or inserts) a key after the first element; with expiry it then
+			// usually moves the clock to the rewritten entry's new deadline (+-1) or just short of
+			// the other entries' deadlines
+			op.K, op.V = g.pickKey(m), g.newVal()
+			if cfg.withExpiry() && r.Intn(3) != 0 {
+				d := cfg.expUpdate(op.K, op.V)
+				if m.visible(op.K) == nil || d <= 0 {
+					d = cfg.expCreate(op.K, op.V)
+				}
+				if d > 0 {
+					op.D2 = d + int64(r.Intn(3)) - 1
+					if op.D2 <= 0 {
+						op.D2 = 1
+					}
+				}
+			}
+		}
 	case "runexec":
 		op.D = int64(r.Intn(4)) - 1 // -1: run everything that is queued
 		if op.D == 0 {
